@@ -80,7 +80,7 @@ func load(o loadOpts) (*Ctx, error) {
 		Env:     env,
 		Fset:    fset,
 		Tests:   false,
-		Overlay: o.overlay,
+		Overlay: withBase(o.overlay),
 	}
 	pkgs, err := packages.Load(cfg, "./...")
 	if err != nil {
